@@ -133,6 +133,7 @@ class Translator:
         self.records = records      # name -> [(field, type, default-lean or None)]
         self.fns = {}               # python name -> Fn
         self.fuel_hints = fuel_hints or {}
+        self.local_types = {}       # function name -> {local: type} for empty containers (`x = []`, `x = {}`)
         self.out = []
         self.loops = []
 
@@ -219,6 +220,8 @@ class Translator:
             raise Untranslatable("constant %r" % (v,))
         if isinstance(n, ast.Name):
             if n.id in c.env:
+                if c.env[n.id][0] in ("list", "dict") and c.env[n.id][1] is None:
+                    raise Untranslatable("use of the empty container %s before its element type is known" % n.id)
                 return n.id, c.env[n.id]
             raise Untranslatable("free variable " + n.id)
         if isinstance(n, ast.Attribute):
@@ -431,6 +434,8 @@ class Translator:
                 return self.truth(a, ta), BOOL
             if name in ("bytearray", "bytes", "str", "list") and len(n.args) == 1:
                 a, ta = self.ex(n.args[0], c, binds)
+                if name in ("bytearray", "bytes") and ta == NAT:
+                    return "(List.replicate %s (0 : UInt8))" % a, BYTES
                 if (name in ("bytearray", "bytes") and ta == BYTES) or (name == "str" and ta == STR) or (name == "list" and ta[0] == "list"):
                     return a, ta
                 raise Untranslatable("%s(%s)" % (name, lean_type(ta)))
@@ -467,6 +472,8 @@ class Translator:
                     binds.append((v, "(if %s %s then some %s else none)" % (self.strict_enums[name], a, a)))
                     return v, NAT
                 raise Untranslatable("enum constructor " + name)
+            if name == "cls" and getattr(self, "cls_name", None):
+                return self.construct(self.cls_name, n, c, binds)
             if name in self.records:
                 return self.construct(name, n, c, binds)
             if name in c.env and c.env[name][0] == "fn":
@@ -508,6 +515,15 @@ class Translator:
                 v = c.fresh("text")
                 binds.append((v, "E.decode %s %s" % (cs, b)))
                 return v, STR
+            # cs.encode(text)
+            if f.attr == "encode" and len(n.args) == 1:
+                recv, tr = self.ex(f.value, c, binds)
+                a, ta = self.ex(n.args[0], c, binds)
+                if tr == CS and ta == STR:
+                    v = c.fresh("enc")
+                    binds.append((v, "E.encode %s %s" % (recv, a)))
+                    return v, BYTES
+                raise Untranslatable("encode: " + ast.unparse(n))
             # Class.method(args): classmethods / methods of translated classes
             if isinstance(f.value, ast.Name) and (f.value.id + "." + f.attr) in self.fns:
                 return self.call_fn(self.fns[f.value.id + "." + f.attr], n.args, n.keywords, c, binds)
@@ -623,6 +639,8 @@ class Translator:
     # ---------------------------------------------------------------- statements
     def wrap(self, binds, body):
         """emit the effect binds in order around `body`"""
+        if binds and not self._partial_mode:
+            raise Untranslatable("effects in a total function")
         for pat, term in reversed(binds):
             body = "match %s with\n| none => none\n| some %s =>\n%s" % (term, pat, ind(body))
         return body
@@ -760,6 +778,8 @@ class Translator:
             return self.wrap(binds, "let %s : Bytes := %s\n%s" % (r0, e, cont(c)))
         if isinstance(tg, ast.Name):
             want = c.env.get(tg.id)
+            if want is None:
+                want = self.local_types.get(c.fn_name, {}).get(tg.id)
             if want is not None and want[0] in ("list", "dict") and want[1] is None:
                 want = None
             binds, e, t = self.expr(value, c, want)
@@ -772,10 +792,9 @@ class Translator:
                         raise Untranslatable("variable %s changes from %s to %s (declare it Int from the start)" % (tg.id, lean_type(want), lean_type(t)))
                     pass
             c.env[tg.id] = t
-            ann = (" : " + lean_type(t)) if t[0] in ("list", "dict") and t[1] is None else ""
-            if ann:
-                raise Untranslatable("empty container without an element type: " + tg.id)
-            return self.wrap(binds, "let %s := %s\n%s" % (tg.id, e, cont(c)))
+            if t[0] in ("list", "dict") and t[1] is None:
+                return self.wrap(binds, cont(c))      # no binding: the element type is fixed by the other branch of a join
+            return self.wrap(binds, "let %s : %s := %s\n%s" % (tg.id, lean_type(t), e, cont(c)))
         if isinstance(tg, ast.Tuple):
             binds, e, t = self.expr(value, c)
             pat = self.bind_target(tg, t, c)
@@ -825,7 +844,9 @@ class Translator:
             thn = self.block(list(s.body), c2, cont)
             return self.wrap(binds, "if %s then\n%s\nelse\n%s" % (cond, ind(thn), ind(self.block(s.orelse, c.copy(), None))))
         # both branches fall through: join on the assigned variables (and the reader position)
-        names = self.assigned(list(s.body) + list(s.orelse), c)
+        nb, ne = self.assigned(list(s.body), c), self.assigned(list(s.orelse), c)
+        # a name bound in one branch only and unknown before is local to that branch
+        names = [x for x in self.assigned(list(s.body) + list(s.orelse), c) if x in c.env or (x in nb and x in ne)]
         with_rd = c.rd is not None and self.uses_reader(list(s.body) + list(s.orelse), c)
         # types after the join: translate both branches with a probe continuation
         types = {}
@@ -836,7 +857,11 @@ class Translator:
                     raise Untranslatable("variable %s is not assigned on every path" % nm)
                 t = c2.env[nm]
                 if nm in types and types[nm] != t:
-                    if types[nm][0] == "opt" and t == NONE or (t[0] == "opt" and types[nm] == NONE):
+                    if t[0] in ("list", "dict") and t[1] is None and types[nm][0] == t[0]:
+                        t = types[nm]
+                    elif types[nm][0] in ("list", "dict") and types[nm][1] is None and types[nm][0] == t[0]:
+                        pass
+                    elif types[nm][0] == "opt" and t == NONE or (t[0] == "opt" and types[nm] == NONE):
                         t = types[nm] if types[nm][0] == "opt" else t
                     elif {types[nm], t} <= {NAT, INT}:
                         t = INT
@@ -973,7 +998,7 @@ class Translator:
             c3.rd = c.fresh("r")
         opat = self.state(names, c3, with_rd)
         loop = "Mimic.Py.loopM (σ := %s) (α := %s) %s %s (fun %s =>\n%s)" % (sty, rett, fuel, init, spat, ind(step))
-        after = cont(c3)
+        after = "none" if always else cont(c3)      # nothing follows a `while True` that has no break
         return pre + ("match %s with\n| none => none\n| some none => none\n| some (some (Mimic.Py.Step.next _)) => none\n"
                       "| some (some (Mimic.Py.Step.ret a)) => some a\n| some (some (Mimic.Py.Step.brk %s)) =>\n%s" % (loop, opat, ind(after)))
 
@@ -1071,6 +1096,7 @@ class Translator:
                 c.rd_alias.add(reader)
             if reader and not partial:
                 continue
+            self._partial_mode = partial
             try:
                 body = self.block([s for s in f.body], c, lambda cc: (_ for _ in ()).throw(Untranslatable("%s falls off its end" % name))
                                   if rt != ("unit",) else self.result(cc, "()"))
@@ -1128,3 +1154,109 @@ def dataclass_fields(cls, overrides=None):
             if t is not None:
                 out.append((nm, t, d))
     return out
+
+
+# ----------------------------------------------------------------------------- packets.py parsers
+def lib_fns():
+    """signatures of the already translated wire primitives (Mimic.Extracted.Types) and of library primitives"""
+    fns = {}
+
+    def rd(name, ret, extra=()):
+        fns[name] = Fn(name, "Mimic.Extracted.Types." + name, [(p, NAT, None) for p in extra], ret, True, True)
+    for n in ("read_uint_1", "read_uint_2", "read_uint_3", "read_uint_4", "read_uint_6", "read_uint_8", "read_uint_len"):
+        rd(n, NAT)
+    for n in ("read_int_1", "read_int_2", "read_int_4", "read_int_8"):
+        rd(n, INT)
+    rd("read_str_len", BYTES)
+    rd("read_str_rest", BYTES)
+    rd("read_str_fixed", BYTES, ("l",))
+    fns["read_float"] = Fn("read_float", "Mimic.Py.readFlt (S := S) 4", [], VAL, True, True)
+    fns["read_double"] = Fn("read_double", "Mimic.Py.readFlt (S := S) 8", [], VAL, True, True)
+    for n, ps in (("uint_1", [NAT]), ("uint_2", [NAT]), ("uint_3", [NAT]), ("uint_4", [NAT]), ("uint_8", [NAT]), ("uint_len", [NAT]),
+                  ("str_len", [BYTES]), ("str_null", [BYTES]), ("str_rest", [BYTES]), ("str_fixed", [NAT, BYTES])):
+        fns[n] = Fn(n, "Mimic.Extracted.Types." + n, [("a%d" % i, t, None) for i, t in enumerate(ps)], BYTES, False, False)
+    return fns
+
+
+def translate_packet_parsers():
+    """→ Lean source of namespace Mimic.Extracted.ParsersCode"""
+    from mysql_mimic import packets as P, results as R, types as Ty, prepared as Pr
+    from mysql_mimic.types import Capabilities, ColumnType, ComStmtExecuteFlags, ResultsetMetadata
+    enums = {"Capabilities": {m.name: int(m) for m in Capabilities}, "ColumnType": {m.name: int(m) for m in ColumnType},
+             "ComStmtExecuteFlags": {m.name: int(m) for m in ComStmtExecuteFlags},
+             "ResultsetMetadata": {m.name: int(m) for m in ResultsetMetadata}}
+    # aliases of flag members (CLIENT_SECURE_CONNECTION = CLIENT_RESERVED2 …) are members of __members__
+    for cls in (Capabilities, ColumnType, ComStmtExecuteFlags, ResultsetMetadata):
+        for nm, m in cls.__members__.items():
+            enums[cls.__name__][nm] = int(m)
+    attrs_t = T_dict(STR, STR)
+    qattrs_t = T_dict(T_opt(STR), VAL)      # annotated Dict[str, str]; the values are whatever _read_param_value returns
+    records = {
+        "SSLRequest": dataclass_fields(P.SSLRequest),
+        "HandshakeResponse41": dataclass_fields(P.HandshakeResponse41),
+        "ComChangeUser": dataclass_fields(P.ComChangeUser),
+        "ComQuery": dataclass_fields(P.ComQuery, {"query_attrs": qattrs_t}),
+        "ComStmtSendLongData": dataclass_fields(P.ComStmtSendLongData),
+        "ComStmtFetch": dataclass_fields(P.ComStmtFetch),
+        "ComStmtReset": dataclass_fields(P.ComStmtReset),
+        "ComStmtClose": dataclass_fields(P.ComStmtClose),
+        "ComFieldList": dataclass_fields(P.ComFieldList),
+        "NullBitmap": [("bitmap", BYTES, None), ("offset", NAT, None)],
+        "PreparedStatement": dataclass_fields(Pr.PreparedStatement, {"cursor": None}),
+    }
+    out = ["-- GENERATED by harness/extract.py (harness/pytrans2.py) from /repo/mysql_mimic/{types,results,packets}.py — do not edit",
+           "import Mimic.Py", "import Mimic.Extracted.Types", "namespace Mimic.Extracted.ParsersCode", "open Mimic.Py", "",
+           "variable {S : Type} [DecidableEq S]", ""]
+    # --- types.py: read_str_null
+    t_types = Translator(Ty, enums, records, fuel_hints={"read_str_null": "reader"})
+    t_types.flags = {"Capabilities", "ComStmtExecuteFlags"}
+    t_types.fns.update(lib_fns())
+    out.append(t_types.function("read_str_null"))
+    # --- results.py: NullBitmap
+    t_res = Translator(R, enums, records)
+    t_res.flags = t_types.flags
+    t_res.fns.update(lib_fns())
+    for nm in records:
+        pass
+    out.append(t_res.record_decl("NullBitmap"))
+    nb = T_rec("NullBitmap")
+    out.append(t_res.function("NullBitmap._num_bytes", "NullBitmap_num_bytes"))
+    t_res.fns["cls._num_bytes"] = t_res.fns["NullBitmap._num_bytes"]
+    # `cls(bitmap, offset)` inside the classmethods is the record constructor
+    t_res.cls_name = "NullBitmap"
+    out.append(t_res.function("NullBitmap.from_buffer", "NullBitmap_from_buffer", ret=nb))
+    out.append(t_res.function("NullBitmap._pos", "NullBitmap_pos", self_type=nb))
+    out.append(t_res.function("NullBitmap.is_flipped", "NullBitmap_is_flipped", self_type=nb))
+    # --- packets.py
+    t = Translator(P, enums, records, fuel_hints={"_read_connect_attrs": "reader"})
+    t.flags = t_types.flags
+    t.strict_enums = {"ColumnType": "E.validType"}
+    t.local_types = {"_read_connect_attrs": {"connect_attrs": T_dict(STR, STR)},
+                     "_read_params": {"param_types": T_list(T_tuple([STR, NAT, BOOL]))},
+                     "make_column_count": {"parts": T_list(BYTES)}}
+    t.fns.update(lib_fns())
+    t.fns["read_str_null"] = t_types.fns["read_str_null"]
+    for k in ("NullBitmap.from_buffer", "NullBitmap.is_flipped"):
+        t.fns[k] = t_res.fns[k]
+    for nm in ("SSLRequest", "HandshakeResponse41", "ComChangeUser", "ComQuery", "ComStmtSendLongData", "ComStmtFetch", "ComStmtReset",
+               "ComStmtClose", "ComFieldList", "PreparedStatement"):
+        out.append(t.record_decl(nm))
+    order = ["parse_com_stmt_send_long_data", "parse_handle_stmt_fetch", "parse_com_stmt_reset", "parse_com_stmt_close", "parse_com_init_db",
+             "parse_com_field_list", "_read_cursor_flags", "_read_param_type", "_read_param_value", "_read_connect_attrs",
+             "parse_handshake_response", "parse_com_change_user", "_read_params", "parse_com_query",
+             "make_column_count", "make_com_stmt_prepare_ok", "make_auth_more_data", "make_auth_switch_request", "make_handshake_v10"]
+    names = []
+    overrides = {
+        "_read_params": dict(ret=T_list(T_tuple([T_opt(STR), VAL]))),
+    }
+    for nm in order:
+        out.append(t.function(nm, **{k: v for k, v in overrides.get(nm, {}).items() if k != "param_types" or all(x is not None for x in v.values())}))
+        names.append(nm)
+    out.append("def translated : List String := [%s]" % ", ".join('"%s"' % n for n in ["read_str_null", "NullBitmap._num_bytes", "NullBitmap.from_buffer",
+               "NullBitmap._pos", "NullBitmap.is_flipped"] + names))
+    out.append("end Mimic.Extracted.ParsersCode")
+    return "\n".join(out) + "\n"
+
+
+if __name__ == "__main__":
+    print(translate_packet_parsers())
